@@ -100,6 +100,11 @@ def discharge(hyps, goal, timeout_ms=None, want_model=False, portfolio=True, ful
     g = z3.simplify(goal)
     if z3.is_true(g):
         return Result("proved", "simplifier", 0.0)
+    if z3.is_false(g):
+        # a clause that evaluated to False on concrete structure: holds only on an infeasible path
+        if contradictory(hyps, 3000):
+            return Result("proved", "z3-5.1", 0.0)
+        return Result("refuted", "concrete", 0.0, reason="the clause is false on this (concrete) structure")
     pre = 0.0
     if not full:
         sub = relevant(hyps, goal)
